@@ -9,6 +9,7 @@ import (
 	"path/filepath"
 	"strings"
 	"sync"
+	"sync/atomic"
 	"time"
 
 	gproto "google.golang.org/protobuf/proto"
@@ -149,7 +150,7 @@ type Worker struct {
 	// control-plane calls of the job (Deploy, retention updates) that are executing inside the worker: Kill waits
 	// for them, so that nothing of a killed worker still writes to its directory when the case removes it
 	inflight sync.WaitGroup
-	ExitErr error
+	ExitErr  error
 }
 
 type Cluster struct {
@@ -177,13 +178,14 @@ type Cluster struct {
 	nextW    int
 	TimerFn  func(key []byte, t int64) ophar.Program
 	// fault policies
-	HoldOpAck  func(a OpAck)  // called before forwarding an operator ack to the job (may block)
-	HoldSRAck  func(a SRAck)  // same for source-runner acks
+	HoldOpAck  func(a OpAck) // called before forwarding an operator ack to the job (may block)
+	HoldSRAck  func(a SRAck) // same for source-runner acks
 	FailDeploy func(node string) error
 	checks     func(h *ophar.Handler, key []byte, pl ophar.Payload, sh ophar.KeyShadow) (string, string)
 	jobGen     int
-	Latency    func(seq int)             // optional handler latency
-	OnOpAck    func(a OpAck, w *Worker) // synchronous, on the operator's event loop, before the ack is forwarded
+	Latency    func(seq int)                 // optional handler latency
+	KeyLatency func(runner string, call int) // optional latency of the key-by call (KeyEventBatch)
+	OnOpAck    func(a OpAck, w *Worker)      // synchronous, on the operator's event loop, before the ack is forwarded
 	// OnOperatorDeploy is called before an operator's HandleDeploy is invoked (epoch switch: shadow = cut).
 	OnOperatorDeploy func(rec DeployRec)
 }
@@ -477,6 +479,7 @@ func (c *Cluster) OpAcks() []OpAck {
 	defer c.mu.Unlock()
 	return append([]OpAck{}, c.opAcks...)
 }
+
 // RedeployedInPlace names a node that accepted two Deploy calls ("" if none): the trigger of the known finding
 // in-place-redeploy.
 func (c *Cluster) RedeployedInPlace() string {
@@ -504,6 +507,7 @@ func (c *Cluster) StartCheckpoints() []StartCkRec {
 	defer c.mu.Unlock()
 	return append([]StartCkRec{}, c.startCk...)
 }
+
 // EdgeErrors lists errors returned by operators to source runners.
 func (c *Cluster) EdgeErrors() []string {
 	c.mu.Lock()
@@ -826,9 +830,10 @@ func (a *srAd) StartCheckpoint(ctx context.Context, id uint64) error {
 // ---------------------------------------------------------------- the user handler seen by the workers
 
 type keyHandler struct {
-	c     *Cluster
-	inner *ophar.Handler
-	w     *Worker
+	c        *Cluster
+	inner    *ophar.Handler
+	w        *Worker
+	keyCalls atomic.Int64
 }
 
 // KeyedRec is one KeyEventBatch call: the largest timestamp the runner had keyed by then.
@@ -859,6 +864,9 @@ func (h *keyHandler) ProcessEventBatch(ctx context.Context, req *handlerpb.Proce
 
 // KeyEventBatch turns records into keyed events: normally one, sometimes zero or two.
 func (h *keyHandler) KeyEventBatch(ctx context.Context, events [][]byte) ([][]*handlerpb.KeyedEvent, error) {
+	if f := h.c.KeyLatency; f != nil {
+		f(h.w.SR.ID, int(h.keyCalls.Add(1)))
+	}
 	out := make([][]*handlerpb.KeyedEvent, len(events))
 	maxTs := int64(-1 << 62)
 	for i, e := range events {
